@@ -64,7 +64,6 @@ MUTANTS = {
     "m47": ("C15", RDD2, "    z_i_2 = saturatem(z_i_2, -ca.vertcat(z_integral_max), ca.vertcat(z_integral_max))", "    z_i_2 = saturatem(z_i_2, -ca.vertcat(2 * z_integral_max), ca.vertcat(z_integral_max))", "height integrator lower clamp doubled"),
     "m48": ("C15", RDD2, "            rollpitch_max * deg2rad * input_aetr[1],\n            rollpitch_max * deg2rad * input_aetr[0],", "            rollpitch_max * deg2rad * input_aetr[1],\n            rollpitch_max * deg2rad * ca.sin(input_aetr[0]),", "auto-level roll command not linear in the stick"),
     "m49": ("C15", LOGLIN, "    omega = so3.elem(e.param).left_jacobian() @ ca.diag(kp) @ e.param  # elementwise", "    omega = so3.elem(e.param).right_jacobian() @ ca.diag(kp) @ e.param  # elementwise", "right instead of left Jacobian in the so(3) law"),
-    "m50": ("C17", RDD2, "            1 / n_motors, 1 / (n_motors * l), -1 / (n_motors * l), 1 / (n_motors * Cm)\n", "            1 / n_motors, 1 / (n_motors * l), 1 / (n_motors * l), 1 / (n_motors * Cm)\n", "one mixer sign flipped"),
     "m51": ("C17", SCRIPT, "        k_p_att = np.array([5, 5, 2], dtype=float)", "        k_p_att = np.array([5, 5, -2], dtype=float)", "yaw attitude gain sign"),
     "m52": ("C17", SCRIPT, "        kd = np.array([0.1, 0.1, 0], dtype=float)", "        kd = np.array([-0.1, 0.1, 0], dtype=float)", "roll rate derivative gain sign"),
     "m53": ("C17", LOGLIN, "kp_pos = 0.5  # position proportional gain", "kp_pos = -0.5  # position proportional gain", "log-linear position gain sign"),
